@@ -24,10 +24,12 @@ POLL = 0.5
 RID = "rq-14"
 
 
-def grid(T: float, fine: bool) -> List[List[Any]]:
+def grid(T: float, fine: Any) -> List[List[Any]]:
     """[time, rank] placements: 10 ms grid within +-30 ms (quick: +-10 ms) of every poll
     boundary and of the deadline, plus +-eps and both tie orders exactly on them."""
     ds = [-0.03, -0.02, -0.01, 0.01, 0.02, 0.03] if fine else [-0.01, 0.01]
+    if fine == "finer":
+        ds = [round(-0.05 + 0.01 * i, 2) for i in range(11) if i != 5]
     anchors = [k * POLL for k in range(1, int(math.floor((T + POLL) / POLL)) + 1)]
     anchors.append(T)
     pts = {}
@@ -486,12 +488,12 @@ def shared_configs(tier: str):
 
 
 def configs_for(tier: str):
-    fine = True
     thorough = tier == "thorough"
+    fine = "finer" if thorough else True
     parts: Dict[str, list] = {}
     # (1) cancel x response placements x traffic
     g = []
-    for T in ((0.3, 1.0, 1.2, 2.2) if thorough else (0.3, 1.0, 1.2)):
+    for T in ((0.3, 0.5, 1.0, 1.2, 1.7, 2.2) if thorough else (0.3, 1.0, 1.2)):
         pts = grid(T, fine)
         cancels = [None, "pre"] + pts
         resps = [None] + pts
@@ -518,7 +520,7 @@ def configs_for(tier: str):
     g = []
     kinds = ["M", "F", "M0"]
     times = [0.1, 0.49, 0.5, 0.75] if not thorough else [0.1, 0.3, 0.49, 0.5, 0.75, 0.8]
-    maxlen = 3 if not thorough else 4
+    maxlen = 3 if not thorough else 5
     for T in (1.2,):
         for L in range(0, maxlen + 1):
             for ks in itertools.product(kinds, repeat=L):
@@ -583,7 +585,7 @@ def run(tier: str, only=None) -> core.Result:
     res.coverage["rule"] = (
         "every placement of {cancel, matching response} on the grid {10 ms steps within +-30 ms (quick +-10 ms) of each 0.5 s "
         "poll boundary and of the deadline, +-1 us, exactly on them in both tie orders, 'before the call', 'never'} for "
-        "T in {0.3,1.0,1.2} x background traffic {none, burst of 5, flood every 10 ms}; every progress stream of <=3 "
+        "T in {0.3,1.0,1.2} (thorough: +-50 ms grid, T also 0.5, 1.7, 2.2; progress streams of <= 5) x background traffic {none, burst of 5, flood every 10 ms}; every progress stream of <=3 "
         "notifications over {matching, foreign token, matching without fields} x 4 time points x callback raising at each "
         "position x ending {response, timeout, cancel}; the caller's own token callbacks (quiet / failing, registered before or during "
         "the call) x cancel placements; one token shared by 2-3 requests on separate connections, concurrent (start offsets) or one after "
